@@ -45,6 +45,7 @@ type voVec struct {
 	Tracks     []voTrack `json:"tracks"`
 	Ops        []voOp    `json:"ops"`
 	ModelPages int       `json:"model_pages"`
+	ModelData  int       `json:"model_data_pages"`
 }
 
 // voMem is an in-memory output that can be rewritten (io.Writer + io.Seeker + io.WriterAt), not an *os.File.
@@ -636,7 +637,23 @@ func voBehaviour(t *testing.T, tr *vkTrace, dir string, v voVec) {
 			"hdr_exp": voExpHeader(chans[i], preskips[i], v.Tracks[i].Rate, expVendor[i], expComments[i]),
 			"hdr_got": voGotHeader(packets), "ch": v.Tracks[i].Ch, "tag": v.Tracks[i].Tag})
 	}
+	// pages that do not carry the two header packets (their sizes are abstract in the generative model)
+	ndata := len(pages)
+	for i := range v.Tracks {
+		done := 0
+		for _, p := range perTrack[i] {
+			if done >= 2 {
+				break
+			}
+			ndata--
+			for _, sv := range p.segs {
+				if sv < 255 {
+					done++
+				}
+			}
+		}
+	}
 	tr.Emit(vkM{"ev": "file", "t": v.ID, "sig": "file(" + v.API + ")", "api": v.API, "sink": sink, "npages": len(pages),
 		"rest": rest, "unknown_serial": unknown, "rdend": rdEnd, "werrs": werrs, "cerr": cerr, "nw_ok": nwOK,
-		"bytes": len(data), "model_pages": v.ModelPages})
+		"bytes": len(data), "model_pages": v.ModelPages, "ndata": ndata, "model_data_pages": v.ModelData})
 }
